@@ -11,6 +11,7 @@ import (
 	"fmt"
 	"io"
 	"net/http"
+	"strconv"
 	"strings"
 	"sync"
 )
@@ -62,6 +63,8 @@ type hxWriter struct {
 	ctxDone <-chan struct{}
 	fault   func(x *hxExchange) error
 	faulted bool // a write has failed: the connection is broken, the client will not see a clean end of the body
+	// like net/http's server: a Content-Length the handler declared is binding
+	declared, written int64
 }
 
 func (w *hxWriter) Header() http.Header { return w.hdr }
@@ -71,6 +74,12 @@ func (w *hxWriter) commit(status int) {
 		w.status = status
 		w.x.Status = status
 		w.x.RespHdr = w.hdr.Clone()
+		w.declared = -1
+		if cl := w.hdr.Get("Content-Length"); cl != "" {
+			if n, err := strconv.ParseInt(cl, 10, 64); err == nil && n >= 0 {
+				w.declared = n
+			}
+		}
 		close(w.ready)
 	})
 }
@@ -85,6 +94,11 @@ func (w *hxWriter) Write(p []byte) (int, error) {
 			return 0, err
 		}
 	}
+	if w.declared >= 0 && w.written+int64(len(p)) > w.declared {
+		w.faulted = true
+		return 0, http.ErrContentLength
+	}
+	w.written += int64(len(p))
 	w.x.mu.Lock()
 	w.x.RespBody.Write(p)
 	w.x.mu.Unlock()
@@ -151,8 +165,8 @@ func (t *hxTransport) RoundTrip(req *http.Request) (*http.Response, error) {
 		t.Handler.ServeHTTP(w, sreq)
 		cancelServer()
 		w.commit(http.StatusOK)
-		if w.faulted {
-			// like a real connection whose writes failed: it is torn down, the client's read of the
+		if w.faulted || (w.declared >= 0 && w.written != w.declared) {
+			// like a real connection whose writes failed (or whose body fell short of its Content-Length): it is torn down, the client's read of the
 			// body ends with an error, not with a clean end of a (chunked) body
 			pw.CloseWithError(io.ErrUnexpectedEOF)
 		} else {
